@@ -11,6 +11,10 @@ CHECKS = {
    text='Generated interchange texts (delimiters, line-break layout, empty/leading-blank/trailing-empty segments, read-buffer boundary alignment, over-long segments) are read through four source kinds (StringIO, short-read stream, path, open file) and compared segment-by-segment, value-by-value with an independent tokeniser; formatted output is compared with the reference serialisation and re-read. Search, not proof: quick 440 generated texts + 28 fixtures x 4 chunkings; thorough 6400.',
    design_ref='3/C01', technique='Hypothesis structured generation with boundary-targeted padding; differential against reference tokeniser; metamorphic over chunking and source kind',
    note='Trusted: vpx/x12ref.py (40-line tokeniser from the ISA offsets). Not generated: unterminated trailing fragment, blank-only segments, CR inside values (text-mode files translate it), non-ASCII.'),
+ 'C04': dict(
+   text='Generated envelope sequences (well-nested shapes with independent perturbations of ids, counts, control-number reuse, truncation, HL/LX numbering; and arbitrary/mutated header-trailer arrangements, optionally with adversarially chosen trailer counts) are read with X12Reader; for well-nested ones the multiset of (level,code) popped after every segment and after cleanup() must equal an independent recount, for all others no exception and at least one envelope error. Quick ~8.7k sequences, thorough ~70k.',
+   design_ref='3/C04', technique='Hypothesis structured generation + mutation; differential against an independent recount model (vpx/envmodel.py)',
+   note='Trusted: vpx/envmodel.py. HL-parent verdicts compared only up to the first bad parent / second root HL of a set and not for HL segments lacking HL02; sequences <= ~60 segments; delimiters fixed (C12 varies them).'),
 }
 for pid in CHECKS:
     ENGINES[0]['serves_properties'].append(pid)
